@@ -513,13 +513,13 @@ def emit_cpp(spec, order_seed=0):
         if how == 'mem':
             get_cases.append('            case %d: return vg::bytes( reinterpret_cast< const std::uint8_t* >( &%s ), reinterpret_cast< const std::uint8_t* >( &%s ) + %d );' % (k, name, name, size))
             set_cases.append('            case %d: std::memcpy( reinterpret_cast< void* >( &%s ), v.data(), std::min< std::size_t >( v.size(), %d ) ); break;' % (k, name, size))
-            init_lines.append('        { std::uint8_t* p = reinterpret_cast< std::uint8_t* >( &%s ); for ( int i = 0; i != %d; ++i ) p[ i ] = static_cast< std::uint8_t >( 0x%02x + i * 7 ); }' % (name, size, (0x31 + k * 13) & 0xff))
+            init_lines.append('        { std::uint8_t* p = reinterpret_cast< std::uint8_t* >( &%s ); std::uint32_t x = %du; for ( int i = 0; i != %d; ++i ) { x = x * 1103515245u + 12345u; p[ i ] = static_cast< std::uint8_t >( x >> 16 ); } }' % (name, 7919 * (k + 1), size))
         elif how == 'const':
             get_cases.append('            case %d: return vg::bytes( reinterpret_cast< const std::uint8_t* >( &%s ), reinterpret_cast< const std::uint8_t* >( &%s ) + 4 );' % (k, name, name))
         else:
             get_cases.append('            case %d: return vg_stores[ %d ].data;' % (k, k))
             set_cases.append('            case %d: vg_stores[ %d ].data = v; if ( vg_stores[ %d ].data.size() > vg_stores[ %d ].capacity ) vg_stores[ %d ].data.resize( vg_stores[ %d ].capacity ); break;' % (k, k, k, k, k, k))
-            init_lines.append('        vg_stores[ %d ].capacity = %d; vg_stores[ %d ].data.assign( %d, static_cast< std::uint8_t >( 0x%02x ) );' % (k, size, k, max(1, size // 2), (0x91 + k * 5) & 0xff))
+            init_lines.append('        vg_stores[ %d ].capacity = %d; vg_stores[ %d ].data.clear(); { std::uint32_t x = %du; for ( int i = 0; i != %d; ++i ) { x = x * 1103515245u + 12345u; vg_stores[ %d ].data.push_back( static_cast< std::uint8_t >( x >> 16 ) ); } }' % (k, size, k, 104729 * (k + 1), max(1, size // 2), k))
 
     src = '''// generated by gattgen.py -- declaration %(sid)s
 #include <bluetoe/server.hpp>
